@@ -861,6 +861,22 @@ func extractMarshal(m *model.Msg) (*marshalModel, error) {
 		inputVar = info.ObjectOf(fl.Type.Params.List[0].Names[0])
 	}
 	var lVar types.Object
+	// the window form: `var buf []byte; if input.Buf == nil { buf = make([]byte, size) } else { buf = append(input.Buf,
+	// make([]byte, size)...) }; dAtA := buf[len(input.Buf):]` — the encoding is written into the tail of the grown
+	// destination and `buf` is what the final return hands back
+	var outBuf, outBufDecl types.Object
+	isInputBuf := func(x ast.Expr) bool {
+		sel, ok := ast.Unparen(x).(*ast.SelectorExpr)
+		return ok && sel.Sel.Name == "Buf" && inputVar != nil && w.isIdent(sel.X, inputVar)
+	}
+	isMakeSize := func(x ast.Expr) bool {
+		call, ok := ast.Unparen(x).(*ast.CallExpr)
+		if !ok || len(call.Args) != 2 || sizeVar == nil {
+			return false
+		}
+		b, ok := core.CalleeObj(info, call).(*types.Builtin)
+		return ok && b.Name() == "make" && w.isIdent(call.Args[1], sizeVar) && types.ExprString(call.Args[0]) == "[]byte"
+	}
 	for ; pos < len(list); pos++ {
 		s := list[pos]
 		switch t := s.(type) {
@@ -868,6 +884,14 @@ func extractMarshal(m *model.Msg) (*marshalModel, error) {
 			if t.Tok == token.DEFINE && len(t.Lhs) == 1 && len(t.Rhs) == 1 {
 				id := t.Lhs[0].(*ast.Ident)
 				rhs := ast.Unparen(t.Rhs[0])
+				if se, ok := rhs.(*ast.SliceExpr); ok && outBuf != nil && w.buf == nil && se.High == nil && !se.Slice3 && w.isIdent(se.X, outBuf) {
+					if call, ok := ast.Unparen(se.Low).(*ast.CallExpr); ok && len(call.Args) == 1 && isInputBuf(call.Args[0]) {
+						if b, ok := core.CalleeObj(info, call).(*types.Builtin); ok && b.Name() == "len" {
+							w.buf = info.ObjectOf(id)
+							continue
+						}
+					}
+				}
 				// x := input.Message.Interface().(*T)
 				if ta, ok := rhs.(*ast.TypeAssertExpr); ok {
 					if strings.HasSuffix(types.ExprString(ta.X), ".Message.Interface()") {
@@ -916,11 +940,40 @@ func extractMarshal(m *model.Msg) (*marshalModel, error) {
 			if gd, ok := t.Decl.(*ast.GenDecl); ok && gd.Tok == token.VAR {
 				vs := gd.Specs[0].(*ast.ValueSpec)
 				if len(vs.Names) == 1 && len(vs.Values) == 0 {
+					if sizeVar != nil && w.buf == nil && types.ExprString(vs.Type) == "[]byte" {
+						outBufDecl = info.ObjectOf(vs.Names[0])
+						continue
+					}
 					lVar = info.ObjectOf(vs.Names[0])
 					continue
 				}
 			}
 		case *ast.IfStmt:
+			if eb, isBlock := t.Else.(*ast.BlockStmt); isBlock && t.Init == nil && outBufDecl != nil && outBuf == nil && len(t.Body.List) == 1 && len(eb.List) == 1 {
+				if be, ok := ast.Unparen(t.Cond).(*ast.BinaryExpr); ok && (be.Op == token.EQL || be.Op == token.NEQ) && isInputBuf(be.X) && types.ExprString(be.Y) == "nil" {
+					fresh, grown := t.Body.List[0], eb.List[0]
+					if be.Op == token.NEQ {
+						fresh, grown = grown, fresh
+					}
+					rhsOf := func(st ast.Stmt) ast.Expr {
+						as, ok := st.(*ast.AssignStmt)
+						if !ok || as.Tok != token.ASSIGN || len(as.Lhs) != 1 || len(as.Rhs) != 1 || !w.isIdent(as.Lhs[0], outBufDecl) {
+							return nil
+						}
+						return as.Rhs[0]
+					}
+					okGrown := false
+					if call, ok := rhsOf(grown).(*ast.CallExpr); ok && len(call.Args) == 2 && call.Ellipsis.IsValid() && isInputBuf(call.Args[0]) && isMakeSize(call.Args[1]) {
+						if b, ok := core.CalleeObj(info, call).(*types.Builtin); ok && b.Name() == "append" {
+							okGrown = true
+						}
+					}
+					if f := rhsOf(fresh); f != nil && isMakeSize(f) && okGrown {
+						outBuf = outBufDecl
+						continue
+					}
+				}
+			}
 			// if x == nil { return MarshalOutput{…Buf: input.Buf}, nil }
 			if c, err := e.cond(t.Cond); err == nil && c == "isnil(x)" && e.msgVar != nil && w.iVar == nil {
 				okRet := false
@@ -1029,6 +1082,35 @@ func extractMarshal(m *model.Msg) (*marshalModel, error) {
 				mm.Blocks = append(mm.Blocks, &encBlock{Kind: "unknown", Str: "if(nonnil(x.unknownFields)){raw(x.unknownFields)}", Pos: s.Pos()})
 				pos++
 				continue
+			}
+		}
+		// an unpacked list written by a bare reverse loop: the loop does nothing for an empty list, so it equals the
+		// loop wrapped in `if len(x.F) > 0 { … }`
+		if fs, ok := s.(*ast.ForStmt); ok {
+			out := &wout{}
+			w.det, w.detOK = nil, nil
+			if err := w.stmts([]ast.Stmt{fs}, out, nil); err != nil {
+				return nil, wrapPos(m, s.Pos(), err)
+			}
+			if len(out.ws) == 1 {
+				if wl, ok := out.ws[0].(WLoop); ok {
+					mm.Blocks = append(mm.Blocks, &encBlock{Kind: "field", Str: "if(nonempty(" + wl.Coll + ")){" + render(out.ws) + "}", Pos: s.Pos(), DetInfo: w.det, DetOK: w.detOK})
+					continue
+				}
+			}
+		}
+		// the window form's single final return: the grown destination itself
+		if outBuf != nil {
+			if rs, ok := s.(*ast.ReturnStmt); ok && pos == len(list)-1 && len(rs.Results) == 2 && types.ExprString(rs.Results[1]) == "nil" {
+				if cl, ok := rs.Results[0].(*ast.CompositeLit); ok {
+					for _, el := range cl.Elts {
+						if kv, ok := el.(*ast.KeyValueExpr); ok && types.ExprString(kv.Key) == "Buf" && w.isIdent(kv.Value, outBuf) {
+							return mm, nil
+						}
+					}
+				}
+				mm.Problems = append(mm.Problems, "final return does not return the grown destination buffer with a nil error")
+				return mm, nil
 			}
 		}
 		return nil, wrapPos(m, s.Pos(), und("top-level statement %s", nodeStr(s)))
